@@ -36,7 +36,7 @@ def cases(tier, rng):
         line = "c02 %s 3 raw-idle" % c
         cs.append({"line": line, "key": line, "model": False, "tags": {"carrier": c, "k": 3, "sc": "raw-idle"}})
     # bytes never cross: several connections transferring their own patterns both ways at the same time, with one and two scheduler threads
-    for c, k, n, procs in ([("tcp", 4, 2000000, 1), ("ws", 4, 1000000, 2)] + ([("kcp", 4, 500000, 1), ("stdio", 4, 1000000, 2), ("tcp", 8, 500000, 1)] if thorough else [])):
+    for c, k, n, procs in ([("tcp", 4, 4000000, 1), ("tcp", 8, 2000000, 1), ("ws", 4, 2000000, 2)] + ([("kcp", 4, 500000, 1), ("stdio", 4, 1000000, 2), ("tcp", 8, 500000, 1)] if thorough else [])):
         line = "c01par %s %d %d %d" % (c, k, n, procs)
         cs.append({"line": line, "key": line, "model": False, "tags": {"carrier": c, "k": k, "sc": "parallel", "n": n}})
     return cs
